@@ -914,6 +914,9 @@ func (p *parser) validateStructAlias(aliasTokens []token.Token, fields []*ast.Va
 	args := make(map[string]ddptypes.Type, len(fields))                 // the arguments of the alias
 	genericUnifiedMap := make(map[string]bool, len(fields)*2)           // holds wether a generic type is unified
 	for _, v := range fields {
+		if v.Type == nil {
+			continue // the type of the field could not be parsed, which was already reported
+		}
 		nameTypeMap[v.Name()] = ddptypes.ParameterType{
 			Type:        v.Type,
 			IsReference: false, // fields are never references
